@@ -312,7 +312,7 @@ pub struct ExSocketAddr(std::net::SocketAddr);""")
 
 
 CANARIES = [
-    {"name": "soa_dropped_when_the_continuation_holds_records", "file": REC, "old": "            let soa_rr = resolved.soa_rr().cloned();", "new": "            let soa_rr = if resolved.rrs().is_empty() { resolved.soa_rr().cloned() } else { None };"},
+    {"name": "soa_dropped_when_the_continuation_holds_records", "file": REC, "old": "            let soa_rr = resolved.soa_rr().cloned();\n            rrs.append(&mut resolved.rrs());", "new": "            let soa_all = resolved.soa_rr().cloned();\n            let mut inner_rrs = resolved.rrs();\n            let soa_rr = if inner_rrs.is_empty() { soa_all } else { None };\n            rrs.append(&mut inner_rrs);"},
     {"name": "slow_candidates_tried_first", "file": REC, "old": "        let mut resolve_candidates_locally = true;\n", "new": "        let mut resolve_candidates_locally = false;\n"},
     {"name": "new_referral_skips_the_local_phase", "file": REC, "old": "                                Vec::with_capacity(candidate_hostnames.len());\n                            resolve_candidates_locally = true;", "new": "                                Vec::with_capacity(candidate_hostnames.len());"},
     {"name": "resolution_budget_ten_minutes", "file": REC, "old": "        Duration::from_mins(1),\n        resolve_recursive_notimeout(context, question),", "new": "        Duration::from_mins(10),\n        resolve_recursive_notimeout(context, question),"},
